@@ -4,9 +4,9 @@ CONSTANTS
   NoReq = 0
   AnnVals = {}
   MatIn = {"SYMMETRIC"}
-  MaxEntries = 2
+  MaxEntries = 3
   MaxHandles = 1
-  OptMode = "canon"
+  OptMode = "order"
   MaxAnnList = 0
 INIT Init
 NEXT MCNext
